@@ -62,8 +62,8 @@ def opname(case, ni):
 
 def build(case, x0=None):
     """class field `decl` (how variables are DECLARED; part of the structural hash, so such classes are never merged even
-    with equal equations): float (default) | kint (k declared by an integer literal: dtype int; its nodes get integer k,
-    a float override of an int-declared constant is D97's route) | xvar (x declared `variable(..)` instead of `output(..)`)"""
+    with equal equations): float (default) | kint (k declared by an integer literal: dtype int; its nodes get integer and,
+    since D97 landed, non-integral k) | xvar (x declared `variable(..)` instead of `output(..)`)"""
     from pyrates import OperatorTemplate, NodeTemplate, CircuitTemplate
     ops, opsv = [], []
     for ci, cl in enumerate(case["classes"]):
@@ -82,8 +82,8 @@ def build(case, x0=None):
     nodes = {}
     for ni, (ci, k) in enumerate(case["nodes"]):
         kint = case["classes"][ci].get("decl") == "kint"
-        assert not kint or Fr(k).denominator == 1, "int-declared parameter with a fractional value (D97's route)"
-        ov = {"k": int(Fr(k)) if kint else float(Fr(k))}
+        # an int-declared parameter gets an int where the value is integral, a float otherwise (legal since D97 = ce404fc)
+        ov = {"k": int(Fr(k)) if kint and Fr(k).denominator == 1 else float(Fr(k))}
         if x0 is not None:
             ov[xname(case, ci)] = float(Fr(x0[ni]))
         tmpl = opsv[ci] if opname(case, ni).endswith("v") else ops[ci]
@@ -459,8 +459,15 @@ def gen_f(rng, linear=False, allow_const=True):
     rng.shuffle(p)
     return p
 
+# repairs that have LANDED in /repo (stage 2): the generator no longer stays inside the guards they made unnecessary
+#   EDGEKEYS = D103 (ce0598c, edges of one group may carry different attribute keys)
+#   ARR1     = D106 (9c22af0, list-valued defaults are copied)
+#   D97      = ce404fc (an int-declared constant that receives a non-integral value becomes float)
+LANDED = {"EDGEKEYS", "ARR1", "D97"}
+
 def fixed_env():
-    return {k.strip() for k in os.environ.get("VERIF_C04_FIXED", "").split(",") if k.strip()}
+    """landed repairs + repairs being tried on a scratch worktree (VERIF_C04_FIXED=...)"""
+    return LANDED | {k.strip() for k in os.environ.get("VERIF_C04_FIXED", "").split(",") if k.strip()}
 
 def groups_of(case):
     """vectorized edge groups (source class, source variable, target class) -> edge indices in edge-list order"""
@@ -510,15 +517,15 @@ def decorate(rng, case):
     elif r < 0.45:
         classes[rng.randrange(len(classes))]["decl"] = rng.choice(["kint", "xvar"])
     for ci, cl in enumerate(classes):
-        if cl.get("decl") == "kint":              # integer values only: a float override of an int-declared constant is D97
+        if cl.get("decl") == "kint":              # integers, and (since D97 landed) non-integral overrides of the int-declared constant
             for n in nodes:
                 if n[0] == ci:
-                    n[1] = str(rng.randint(-3, 3))
+                    n[1] = str(rng.randint(-3, 3)) if "D97" not in fixed or rng.random() < 0.5 else str(Fr(rng.randint(-12, 12), 4))
     for i, a in enumerate(classes):               # classes must stay pairwise different in (equations, declaration)
         for b in classes[i + 1:]:
             if (a["f"], a["g"], a.get("decl", "float")) == (b["f"], b["g"], b.get("decl", "float")):
                 b["decl"] = "xvar" if a.get("decl", "float") != "xvar" else "kint"
-                if b["decl"] == "kint":
+                if b["decl"] == "kint" and "D97" not in fixed:
                     for n in nodes:
                         if classes[n[0]] is b:
                             n[1] = str(rng.randint(-3, 3))
